@@ -91,7 +91,7 @@ package random
 //@ ensures [layout] len(result) == 52 && forall(k, 0, 32, result[k] == c.core.seed[k]) && forall(k, 0, 12, result[32+k] == c.core.customizer[k]) && le64(result[44:52]) == c.core.bytesCounter
 
 //@ func NewChacha20PRG mode int props C14 C09
-//@ dead-return 2   // the cipher constructor cannot fail for a 32-byte key and a 12-byte nonce
+//@ dead-return 3   // the cipher constructor cannot fail for a 32-byte key and a 12-byte nonce
 //@ assigns nothing
 //@ ensures [bad-lengths] (len(seed) != 32 || len(customizer) > 12) ==> result0 == nil && result1 != nil
 //@ ensures [ok] len(seed) == 32 && len(customizer) <= 12 ==> result1 == nil && result0 != nil && fresh(result0) && fresh(result0.core) && coreInv(result0.core) && result0.core.bytesCounter == 0 && prgInv(&result0.genericPRG) && typeis(result0.genericPRG.randCore, *chachaCore) && unbox(result0.genericPRG.randCore, *chachaCore) == result0.core
